@@ -236,8 +236,13 @@ class WSStream:
                 )
                 await self.app_put({"type": "websocket.connect"})
         elif isinstance(event, (Body, Data)) and not self.handshake.accepted:
-            await self._send_error_response(400)
-            self.closed = True
+            if self.state == ASGIWebsocketState.HANDSHAKE:
+                self.closed = True
+                await self._send_error_response(400)
+                if self.app_put is not None:
+                    await self.app_put(
+                        {"type": "websocket.disconnect", "code": CloseReason.ABNORMAL_CLOSURE.value}
+                    )
         elif isinstance(event, (Body, Data)):
             self.connection.receive_data(event.data)
             await self._handle_events()
